@@ -30,13 +30,13 @@ TYPES = {'BOOLEAN', 'INTEGER', 'REAL', 'STRING', 'UNIQUE_ID'}
 
 def run(ctx):
     am = AssocModel(ctx.repo)
-    types(ctx)
-    quote(ctx)
-    fmt(ctx)
-    routes(ctx)
-    rop_identity(ctx, am)
-    ident(ctx)
-    order(ctx)
+    ctx.guard(types, ctx)
+    ctx.guard(quote, ctx)
+    ctx.guard(fmt, ctx)
+    ctx.guard(routes, ctx)
+    ctx.guard(rop_identity, ctx, am)
+    ctx.guard(ident, ctx)
+    ctx.guard(order, ctx)
     ctx.assume('equality of loaded values, real rounding to six decimals and the fixed-point claim are runtime quantities and are not decided')
     ctx.assume('special floats (inf/nan) are outside the persistable domain')
     return ('Set comparison of the type alphabets in serialize_value / deserialize_value / default_value / guess_type_name / '
@@ -181,6 +181,7 @@ def quote(ctx):
 
 # ---------------------------------------------------------------------------
 TEMPLATES = [
+    ("\"'%s'\" % v", r"'(.|\n)*'", 'quoted text WITHOUT quote doubling'),
     ("'%d' % int(v)", r'[01]', 'BOOLEAN as 0/1'),
     ("'%d' % v", r'-?[0-9]+', 'decimal integer'),
     ("'%f' % v", r'-?[0-9]+\.[0-9]{6}', 'fixed six decimals'),
@@ -349,6 +350,27 @@ def routes(ctx):
                 conds = [x for x in n.body if isinstance(x, ast.If)]
                 r.check(not skips and not conds, '%s emits for every element' % name, n, construct=P + name, key='skip ' + s,
                         msg='%s skips elements of `%s` (%s)' % (name, s, 'break/continue' if skips else ('if ' + src(conds[0].test) if conds else '')))
+    # no emitter may run on a stale loop variable (a loop that was meant to be nested but sits after the loop it depends on)
+    for name in sorted(want) + ['serialize_classes', 'serialize_associations']:
+        fn = repo.func(P + name)
+        for blk in [n for n in ast.walk(fn) if hasattr(n, 'body') and isinstance(getattr(n, 'body'), list)]:
+            stmts = blk.body
+            for i, st in enumerate(stmts):
+                if not isinstance(st, ast.For):
+                    continue
+                bound = set(x.id for x in ast.walk(st.target) if isinstance(x, ast.Name))
+                for inner in ast.walk(st):
+                    if isinstance(inner, ast.Assign):
+                        bound |= set(t.id for t in inner.targets if isinstance(t, ast.Name))
+                bound -= {'s', 'f'}
+                for later in stmts[i + 1:]:
+                    rebound = set(t.id for x in ast.walk(later) if isinstance(x, ast.Assign) for t in x.targets if isinstance(t, ast.Name))
+                    used = set(x.id for x in ast.walk(later) if isinstance(x, ast.Name) and isinstance(x.ctx, ast.Load)) & bound
+                    stale = used - rebound - set(x.id for x in ast.walk(later) if isinstance(later, ast.For) and isinstance(x, ast.Name) and x in ast.walk(later.target))
+                    r.check(not stale, '%s: statements after the loop over `%s` do not depend on its loop variables' % (name, src(st.iter)), later,
+                            construct=P + name, key='stale-loop-variable %s' % sorted(stale),
+                            msg='%s: `%s` runs AFTER the loop over `%s` but reads %s, which is bound inside that loop: it only sees the last '
+                                'element, so the statements of all other elements are missing' % (name, src(later).split('\n')[0][:70], src(st.iter), sorted(stale)))
     # every produced text reaches the file
     for name in ('persist_instances', 'persist_schema', 'persist_unique_identifiers', 'persist_database'):
         fn = repo.func(P + name)
